@@ -294,7 +294,7 @@ def engine_check(pid, fams, tier_, maxruns, level_note="", props=None, extra_cov
             states += r["states"]
             distinct += r["distinct"]
             for v in d["viol"]:
-                if v["p"] not in props:
+                if v["p"] not in props and v["p"] != "ANY":
                     continue
                 if v["kf"] and v["kf"] in known:
                     w, n = known_hits.get(v["kf"], (known[v["kf"]]["what"], 0))
@@ -372,7 +372,7 @@ def engine_replay(pid, path):
         known = {k["id"]: k for k in load_known_findings() if k.get("status") == "open" and pid in k.get("properties", [])}
         found, known_hits = [], {}
         for v in d["viol"]:
-            if v["p"] != pid:
+            if v["p"] != pid and v["p"] != "ANY":
                 continue
             if v["kf"] and v["kf"] in known:
                 w, n = known_hits.get(v["kf"], (known[v["kf"]]["what"], 0))
